@@ -98,7 +98,7 @@ Judge(e, L, keep, drop) ==
 
 Pre(e) == IF ~WeightOK(e.m) THEN "machinery_weight"
           ELSE IF ~ModelDefined(e.m) THEN "machinery_fragment"
-          ELSE IF ~FastTriggsOK(e.m) THEN "machinery_corrector"
+          ELSE IF ~KernelDataOK(e.m) THEN "machinery_corrector"
           ELSE IF Len(Keep(e.m, e.layout)) # NCols(e.m) THEN "machinery_layout"
           ELSE IF e.out = "raise" THEN "raised"
           ELSE "ok"
